@@ -33,7 +33,8 @@ try:
     dcmd = meta.get("demo_command", "")
     denv = dict(env)
     seen_env = set()
-    for kv in re.findall(r"\b([A-Z][A-Z0-9_]+)=([^\s;,)]+)", meta.get("demo_env", "") or ""):
+    for kv in re.findall(r"\b([A-Z][A-Z0-9_]+)=((?:[a-z0-9_.]+=[a-z0-9]+,?)+|[^\s;,)]+)", meta.get("demo_env", "") or ""):
+        kv = (kv[0], kv[1].rstrip(",."))
         if kv[0] not in ("GOFLAGS", "GOPROXY", "GOSUMDB", "GOTOOLCHAIN") and kv[0] not in seen_env:
             # free-text demo_env may list alternatives ("or GODEBUG=...", "passes with GODEBUG=..."): the first one counts
             denv[kv[0]] = kv[1]
